@@ -3,6 +3,25 @@
 ZSTD = "zstd crate: decompress(compress(x)) = x and context-history independence (exercised, not proved)"
 
 PROPS = {
+    "C13": {
+        "level": "proof",
+        "assumptions": [
+            "Model/Container.lean + Model/Varint.lean mirror ragc-common/src/archive.rs and varint.rs (release arithmetic, "
+            "lseek limit probed on the work directory); tied by byte-exact correspondence of the written file, the per-operation "
+            "results and every reader answer on random operation histories",
+            "std::fs / BufWriter / BufReader deliver the bytes handed to them (I/O failures belong to C15)",
+        ],
+    },
+    "C14": {
+        "level": "proof",
+        "checked_profile": True,
+        "assumptions": [
+            "Model/Container.lean mirrors Archive::open (deserialize) in release arithmetic and in dev/test arithmetic "
+            "(overflow checks; second harness build, profile 'checked'), including the footer-offset wrap-around / panic, the lseek limit of the file system (probed) and the size of the footer allocation; tied by the outcome "
+            "class (ok / err / panic) of opening every strict prefix of generated archives",
+            "Vec allocation of more than isize::MAX bytes panics with 'capacity overflow' without allocating (Rust std)",
+        ],
+    },
     "C20": {
         "level": "proof",
         "assumptions": [
